@@ -362,6 +362,7 @@ class Return(Exception):
 
 class Interp:
     SPLIT_BOUND = 8
+    ATOM_CUTS = 3      # separators looked for inside one symbolic component before giving up on the path
 
     def __init__(self, path: Path, stubs=None):
         self.P = path
@@ -715,14 +716,30 @@ class Interp:
         if isinstance(s, (str, bytes)):
             return s.split(sep, maxsplit)
         cls = type(s)
-        if len(sep) == 1 and len(s.segs) > 1 or (len(sep) == 1 and s.segs and s.segs[0][0] == "atom" and len(s.segs) == 1 and False):
-            # segment-wise split: literals are split concretely, an atom stays whole if the solver shows
-            # it cannot contain the separator; otherwise fall through to the general encoding
+        if len(sep) == 1 and len(s.segs) > 1:
+            # segment-wise split: literals are split concretely; an atom that may contain the separator is cut,
+            # occurrence by occurrence, into fresh atoms that do not contain it (no indexof over the whole string)
             clean = True
+            segs = []
             for kind, v in s.segs:
-                if kind == "atom" and self.P.decide(f"(str.contains {v} {lit(sep)})"):
-                    clean = False
-                    break
+                budget = self.ATOM_CUTS
+                if kind != "atom":
+                    segs.append((kind, v))
+                    continue
+                cur = v
+                while self.P.decide(f"(str.contains {cur} {lit(sep)})"):
+                    if budget == 0:
+                        raise Unsupported(f"more than {self.ATOM_CUTS} separators inside one symbolic component (bound)")
+                    budget -= 1
+                    head = self.P.fresh("part")
+                    rest = self.P.fresh("rest")
+                    self.P.pc.append(f"(= {cur} (str.++ {head} {lit(sep)} {rest}))")
+                    self.P.pc.append(f"(not (str.contains {head} {lit(sep)}))")
+                    segs.append(("atom", head))
+                    segs.append(("lit", sep))
+                    cur = rest
+                segs.append(("atom", cur))
+            s = cls(s.t, segs)
             if clean:
                 pieces = [[]]
                 for kind, v in s.segs:
